@@ -23,7 +23,9 @@ Inductive case20 :=
   (* parseRedisURL(target) with url.Parse's answer; observed ok/host/password/db *)
 | CUrl (target : bytes) (perr : bool) (scheme path host user : bytes) (ok : bool) (ohost opw : bytes) (odb : Z)
   (* redis.New(cfg) against a live server: announce + scrape succeed? *)
-| CLive (read write connect : Z) (built works : bool).
+| CLive (read write connect : Z) (built works : bool)
+  (* reflection over a component's Config struct: its fields (name:yaml) in declaration order *)
+| CFields (component : bytes) (fields : list bytes).
 
 Definition nthz (l : list Z) (n : nat) : Z := nth n l 0.
 Fixpoint list_eqb (a b : list Z) : bool :=
@@ -66,8 +68,24 @@ Definition mk_parts (perr : bool) (scheme path host user : bytes) : url_parts :=
 
 Definition start_code (s : start) : Z := match s with Built => 0 | UnknownDriver => 1 | OptionsRefused => 2 end.
 
+Fixpoint surface_of (comp : bytes) (l : list (bytes * list bytes)) : option (list bytes) :=
+  match l with
+  | [] => None
+  | (n, fs) :: r => if bytes_eqb n comp then Some fs else surface_of comp r
+  end.
+Fixpoint blist_eqb (a b : list bytes) : bool :=
+  match a, b with
+  | [], [] => true
+  | x :: a', y :: b' => bytes_eqb x y && blist_eqb a' b'
+  | _, _ => false
+  end.
 Definition chk20 (c : case20) : verdict :=
   match c with
+  | CFields comp fields =>
+    (9000, match surface_of comp config_surface with
+           | Some fs => if blist_eqb fs fields then 0 else 120
+           | None => 120
+           end)
   | CHttp i o rest twice =>
     let m := un_http (http_validate (mk_http i)) in
     (1000 + changed_bits i m 1,
@@ -174,6 +192,7 @@ Definition chk20 (c : case20) : verdict :=
 (* what the model expected *)
 Definition explain20 (c : case20) : list Z * list bytes :=
   match c with
+  | CFields comp _ => ([], match surface_of comp config_surface with Some fs => fs | None => [] end)
   | CHttp i _ _ _ => (un_http (http_validate (mk_http i)), [])
   | CUdp k i k' _ _ _ => (un_udp (udp_validate k' (mk_udp k i)), [u_key (udp_validate k' (mk_udp k i))])
   | CMem i _ _ _ => (un_mem (mem_validate (mk_mem i)) ++ [mem_shard_slots (mk_mem i)], [])
